@@ -354,10 +354,10 @@ class SymmetryTranslator:
         for subset in largest_subset(symbols):
             if len(subset) <= 1:
                 continue
-            preds: set[Predicate] = set()
+            preds: set[tuple[Predicate, int]] = set()
             for lit in subset:
                 symbol = lit.atom.symbol
-                preds.add(Predicate(symbol.name, len(symbol.arguments)))
+                preds.add((Predicate(symbol.name, len(symbol.arguments)), lit.sign))  # p(X) and not p(Y) are no symmetry
             if len(preds) == 1:
                 yield tuple(sorted(subset))
 
